@@ -256,7 +256,7 @@ class Enumerator:
             if m is None:
                 continue
             src = ast.unparse(m.node)
-            if "isinstance(" in src and "str)" in src and "self.value ==" in src:
+            if "isinstance(" in src and "str)" in src and ("self.value ==" in src or "== self.value" in src):
                 vals = {}
                 for name, v in c.enum_members:
                     try:
